@@ -160,14 +160,12 @@ class PSDMatrix(object):
 
         """
 
-        # If the attribute value is not None, then simply return it.
-        # Otherwise, compute it and return it.
-        if self._value is None:
-            try:
-                self._value = np.array([[expression.eval() for expression in line]
-                                        for line in self.matrix_of_expressions])
-            except ValueError:
-                raise ValueError("The PEP must be solved to evaluate PSDMatrix!")
+        # Compute the value anew from the underlying expressions, so that it always reflects the latest solve.
+        try:
+            self._value = np.array([[expression.eval() for expression in line]
+                                    for line in self.matrix_of_expressions])
+        except ValueError:
+            raise ValueError("The PEP must be solved to evaluate PSDMatrix!")
 
         # Return the value
         return self._value
